@@ -4,15 +4,15 @@
 import PygProofs.Lemmas.TableAbs2
 
 namespace Pyg
-open Table
+open Table Abs
 
 /-- a machine state (heap, outcome) read as lists of records -/
 def absStep (p : Heap × Out) : RHeap × Out := (p.1.map abs, p.2)
 
 /-- the outcomes of a history of the dictable machine, line by line -/
-def trace (s : Heap) : List Op → List Out
+def stepTrace (s : Heap) : List Op → List Out
   | [] => []
-  | op :: ops => (step s op).2 :: trace (step s op).1 ops
+  | op :: ops => (step s op).2 :: stepTrace (step s op).1 ops
 
 theorem map_put (s : Heap) (d : Nat) (t : Table) :
     (s.put d t).map abs = RHeap.put (s.map abs) d (abs t) := by
@@ -34,7 +34,7 @@ theorem absStep_query (s : Heap) (r : Except Err Val) :
     absStep (s.query r) = RHeap.query (s.map abs) r := by
   cases r <;> rfl
 
-theorem mapM_option_map {α β γ} (f : α → Option β) (g : β → γ) (xs : List α) :
+theorem Abs.mapM_option_map {α β γ} (f : α → Option β) (g : β → γ) (xs : List α) :
     xs.mapM (fun x => (f x).map g) = (xs.mapM f).map (List.map g) := by
   induction xs with
   | nil => rfl
